@@ -302,12 +302,14 @@ def _norm_ws(s: str) -> str:
 
 
 LP_TOKENS = "call:_load_inflight_protection set:protected_files"
+# collect()'s own check that the version hint names an existing metadata file: pointer plane, outside the collector model
+HINT_CHECK_TOKENS = "call:_require_hinted_metadata_present do:self._require_hinted_metadata_present"
 
 
 def _movable(s: str) -> str:
     """collect(): the call that loads the in-flight protection may sit before the metadata refresh (the repair planned for
     C06) or after the reachability phase; both orders are modelled (GenNorm.MARKERS_FIRST). Logging-only `if`s are dropped."""
-    return _norm_ws(_norm_ws(s).replace(LP_TOKENS, " ").replace("if{ }else{ }", " "))
+    return _norm_ws(_norm_ws(s).replace(LP_TOKENS, " ").replace(HINT_CHECK_TOKENS, " ").replace("if{ }else{ }", " "))
 
 
 def markers_first(fn: ast.FunctionDef) -> bool:
